@@ -29,7 +29,7 @@ struct Raw
     struct StorageProperties properties;
     struct file file;
     uint8_t is_open; ///< true iff `file` refers to a file this device created
-    size_t offset;
+    size_t offset;   ///< where the next append lands in `file`
 };
 
 static enum DeviceState
@@ -85,6 +85,7 @@ raw_start(struct Storage* self_)
     CHECK(file_create(
       &self->file, self->properties.uri.str, self->properties.uri.nbytes));
     self->is_open = 1;
+    self->offset = 0; // every acquisition starts at the beginning of its file
     LOG("RAW: Frame header size %d bytes", (int)sizeof(struct VideoFrame));
     return DeviceState_Running;
 Error:
